@@ -860,11 +860,8 @@ class RealWorld(RealImage):
         return key
 
     def set_next_id(self, n):
-        con = sqlite3.connect(os.path.join(self.folder, 'packs.idx'))
-        con.execute("INSERT INTO db_object (id, hashkey, pack_id, offset, length, size, compressed) VALUES (?, 'tmp', 0, 0, 0, 0, 0)", (n - 1,))
-        con.execute("DELETE FROM db_object WHERE hashkey = 'tmp'")
-        con.commit()
-        con.close()
+        """rows created by set_pack get the primary keys n, n+1, ... (sparse ids, as after deletions)"""
+        self._next_id = n
 
     def damage_loose(self, key, size):
         with io.open(self.loose_path(key), 'wb') as f:
@@ -916,9 +913,16 @@ class RealWorld(RealImage):
             f.write(data)
         self.synced[os.stat(p).st_ino] = len(data)
         con = sqlite3.connect(os.path.join(self.folder, 'packs.idx'))
-        con.executemany(
-            'INSERT INTO db_object (hashkey, pack_id, offset, length, size, compressed) VALUES (?,?,?,?,?,?)', rows
-        )
+        if getattr(self, '_next_id', None) is not None:
+            rows = [(self._next_id + n,) + r for n, r in enumerate(rows)]
+            self._next_id += len(rows)
+            con.executemany(
+                'INSERT INTO db_object (id, hashkey, pack_id, offset, length, size, compressed) VALUES (?,?,?,?,?,?,?)', rows
+            )
+        else:
+            con.executemany(
+                'INSERT INTO db_object (hashkey, pack_id, offset, length, size, compressed) VALUES (?,?,?,?,?,?)', rows
+            )
         con.commit()
         con.close()
 
